@@ -250,7 +250,10 @@ impl MachineState {
             (HeapCellValueTag::Cons, ptr) => {
                 match ptr.get_tag() {
                     ArenaHeaderTag::Rational | ArenaHeaderTag::Integer => {
-                        c
+                        // NOTE: the constant index is keyed by cell, and boxed
+                        // numbers are equal by value, not by cell: try every
+                        // clause and let head unification decide.
+                        v
                     }
                     _ => {
                         IndexingCodePtr::Fail
